@@ -33,6 +33,7 @@ package main
 import (
 	"fmt"
 	"go/ast"
+	"go/constant"
 	"go/token"
 	"sort"
 	"strconv"
@@ -61,6 +62,9 @@ const (
 	kOpaque // a type of spec.Opaque: a Lean type parameter; values are only passed on
 	kOrd    // float32 under spec.FloatAbs: a Lean type parameter with a decidable `<` (only < and > are translated)
 	kOpt    // *float32 under spec.FloatAbs: Option (nil = none); made by &v of a variable assigned once, read by *p
+	kF32    // float32 under spec.FloatSym: a symbolic expression tree Go.FExpr (the arithmetic is not interpreted)
+	kF64    // float64 under spec.FloatSym: Go.FExpr as well (the translator keeps the two precisions apart and writes every conversion)
+	kFConst // untyped floating-point constant (exact value in xval.fc)
 )
 
 type xty struct {
@@ -88,6 +92,9 @@ var (
 	tAny    = &xty{k: kAny}
 	tBucket = &xty{k: kBucket}
 	tErrOpt = &xty{k: kErrOpt}
+	tF32    = &xty{k: kF32}
+	tF64    = &xty{k: kF64}
+	tFCon   = &xty{k: kFConst}
 )
 
 func listOf(e *xty) *xty { return &xty{k: kList, elem: e} }
@@ -137,6 +144,14 @@ func (t *xty) mentionsAny() bool {
 		}
 	}
 	return false
+}
+
+// does the type contain a function type (then a structure with such a field derives nothing)
+func (t *xty) mentionsFunc() bool {
+	if t == nil {
+		return false
+	}
+	return t.k == kFunc || t.elem.mentionsFunc() || t.key.mentionsFunc()
 }
 
 // the type parameters (spec.Opaque / spec.FloatAbs names) a type mentions
@@ -218,6 +233,8 @@ func (t *xty) lean() string {
 		return "Option String"
 	case kOpaque, kOrd:
 		return t.name
+	case kF32, kF64:
+		return "Go.FExpr"
 	case kOpt:
 		return "Option " + parenT(t.elem.lean())
 	case kList:
@@ -264,12 +281,12 @@ func (t *xty) lean() string {
 }
 
 type structSpec struct {
-	File string   // path relative to the repository
-	Name string   // Go type name
-	Only []string // if set: the fields that are modelled (any other field access is an error)
-	Caps []string // slice fields whose capacity is read (`cap(s.f)`): each gets the ghost field f_cap : Int
-	Drop []string // fields that are not modelled although literals set them: their (call-free) initialisers are not translated
-	InFunc string // the type is declared by a `type` statement inside the body of this function of File
+	File   string   // path relative to the repository
+	Name   string   // Go type name
+	Only   []string // if set: the fields that are modelled (any other field access is an error)
+	Caps   []string // slice fields whose capacity is read (`cap(s.f)`): each gets the ghost field f_cap : Int
+	Drop   []string // fields that are not modelled although literals set them: their (call-free) initialisers are not translated
+	InFunc string   // the type is declared by a `type` statement inside the body of this function of File
 }
 
 type xfield struct {
@@ -332,6 +349,7 @@ type xval struct {
 	s  string
 	ty *xty
 	c  int64
+	fc constant.Value // exact value when ty is kFConst
 }
 
 // control context of the statement being translated
@@ -403,6 +421,7 @@ type xtr struct {
 	methods        map[string]*xmethod    // spec.Methods: "LeanType.Method" -> abstract method of an opaque type
 	capVars        map[string]string      // spec.CapVars: slice variable -> the Int variable that holds its capacity
 	fnBody         *ast.BlockStmt         // the body being translated (for whole-function checks)
+	asserts        map[string]string      // spec.Asserts: Go type text of the assertion -> abstract function
 }
 
 // a method of an opaque (interface) type, kept abstract: the parameter <Type>_<Method> of the translated
@@ -517,6 +536,13 @@ func (x *xtr) goTy(e ast.Expr) *xty {
 			if x.sp.FloatAbs != "" {
 				return &xty{k: kOrd, name: x.sp.FloatAbs}
 			}
+			if x.sp.FloatSym {
+				return tF32
+			}
+		case "float64":
+			if x.sp.FloatSym {
+				return tF64
+			}
 		}
 		if _, ok := x.structs[t.Name]; ok {
 			return x.structTy(t.Name)
@@ -545,7 +571,7 @@ func (x *xtr) goTy(e ast.Expr) *xty {
 			if _, ok := x.structs[id.Name]; ok {
 				return x.structTy(id.Name)
 			}
-			if id.Name == "float32" && x.sp.FloatAbs != "" {
+			if id.Name == "float32" && (x.sp.FloatAbs != "" || x.sp.FloatSym) {
 				return &xty{k: kOpt, elem: x.goTy(t.X)}
 			}
 		}
@@ -633,6 +659,8 @@ func (x *xtr) zero(n ast.Node, t *xty) string {
 		return "[]"
 	case kOpt:
 		return "none"
+	case kF32, kF64:
+		return "(Go.FExpr.lit 0)"
 	case kStruct:
 		return t.name + ".zero"
 	case kAny:
@@ -671,7 +699,11 @@ func (x *xtr) structText(s *xstruct) genFunc {
 		fmt.Fprintf(&b, "  %s : %s\n", ident(f.name), f.ty.lean())
 		zs = append(zs, x.zero(nil, f.ty))
 	}
-	if !s.poly && len(s.tparams) == 0 {
+	hasFn := false
+	for _, f := range s.fields {
+		hasFn = hasFn || f.ty.mentionsFunc()
+	}
+	if !s.poly && len(s.tparams) == 0 && !hasFn {
 		b.WriteString("  deriving DecidableEq, Repr\n")
 	}
 	fmt.Fprintf(&b, "/-- the zero value of `%s` -/\ndef %s.zero%s : %s := ⟨%s⟩\n", s.name, s.name, impl, ty, strings.Join(zs, ", "))
